@@ -81,6 +81,7 @@ class Run:
         self.case = case
         self.loop = loop
         self.flavour = consumer_flavour
+        catalogue.FAIL_EXC[0] = catalogue.EXC_KINDS[case.get("exc") or "ValueError"]
         self.log = TLog(self.now)
         self.nodes = []          # strong refs while "held"
         self.wr = []             # weak refs
@@ -131,7 +132,7 @@ class Run:
                 try:
                     return f(*a)
                 except Exception as e:  # noqa: BLE001
-                    run.log.append(["fnraise", me, type(e).__name__])
+                    run.log.append(["fnraise", me, run._exc_name(e)])
                     raise
             return w
 
@@ -236,6 +237,11 @@ class Run:
             return ups[0].buffer(nd["n"])
         def interval_of(nd):
             # the interval as a number of seconds or (interval_str) as a pandas-style string: '1s', '500ms', ...
+            if nd.get("interval_str") == "np":
+                # a numpy scalar (an interval read from an array or a frame)
+                import numpy as np
+                iv = nd["interval"]
+                return np.int64(iv) if iv == int(iv) else np.float64(iv)
             if nd.get("interval_str"):
                 iv = nd["interval"]
                 return "%dms" % int(round(iv * 1000)) if nd["interval_str"] == "ms" else "%gs" % iv
@@ -423,6 +429,15 @@ class Run:
                 e[1] = last_arrive
         return list(l)
 
+    def _exc_name(self, e):
+        """class name of an exception; the type selected with case["exc"] for the failing user functions is reported as the default
+        'ValueError' (a StopIteration crossing a coroutine frame arrives as RuntimeError: PEP 479), so observations and model agree"""
+        name = type(e).__name__
+        sel = self.case.get("exc")
+        if sel and (name == sel or (sel == "StopIteration" and name == "RuntimeError" and "StopIteration" in str(e))):
+            return "ValueError"
+        return name
+
     def emit_status(self):
         out = []
         for f in self.emits:
@@ -433,7 +448,7 @@ class Run:
             elif f.cancelled():
                 out.append("cancelled")
             elif f.exception() is not None:
-                out.append("raised:" + type(f.exception()).__name__)
+                out.append("raised:" + self._exc_name(f.exception()))
             else:
                 out.append("done")
         return out
@@ -504,7 +519,7 @@ class Run:
             else:
                 raise KeyError(kind)
         except Exception as e:  # noqa: BLE001 - class name only, no traceback kept
-            name = type(e).__name__
+            name = self._exc_name(e)
             if kind == "emit" and self.case["mode"] == "async":
                 self.emits.append(None)
             e = None
@@ -546,6 +561,7 @@ class Run:
 
     def cleanup(self):
         from streamz import sinks
+        catalogue.FAIL_EXC[0] = ValueError
         for n in self.nodes:
             if n is not None and n in sinks._global_sinks:
                 sinks._global_sinks.discard(n)
